@@ -167,8 +167,8 @@ func runReaderCase(idx int, rng *hlib.Rand, h hostile, thorough bool) *caseOut {
 
 	sticky := "" // error class that every later call must repeat
 	dsize := int64(-1)
-	pos := int64(0)    // where the next chunk must start / which offset it must contain
-	exact := true      // true: DRange[0] must equal pos (a walk); false: must contain pos (after a seek)
+	pos := int64(0) // where the next chunk must start / which offset it must contain
+	exact := true   // true: DRange[0] must equal pos (a walk); false: must contain pos (after a seek)
 	var chunks []rac.Chunk
 	maxReads := 0
 
